@@ -36,7 +36,8 @@ func (Driver) Info() core.Info {
 		Rule: "case = (byte string, target types): the library's own JSON / MessagePack encoding of a generated value (nulls, unknowns with refinements, " +
 			"dynamic wrappers, 16/32-bit headers) after 0..4 mutations (bit/byte edits, truncation, chunk duplication, splices of another encoding, msgpack length-field " +
 			"edits up to 2^32-1, duplicated keys, dropped/duplicated values, stock hostile values such as NaN and contradictory refinement maps, JSON token edits); " +
-			"type-descriptor documents from a grammar with hostile productions (bare and inside dynamic wrappers of both formats); deep-nesting documents; raw random " +
+			"type-descriptor documents from a grammar with hostile productions (bare and inside dynamic wrappers of both formats); deep-nesting documents; long valid documents (1023..4097 members); " +
+			"msgpack arrays and maps with 1020..70000 REAL small members under a 32-bit header declaring 2^20..2^32-1 (bare, nested, as map values, dynamically typed; list / set / tuple / map / object targets; fixed grid and seeded); raw random " +
 			"bytes; each format's bytes fed to the other format's decoders; a fixed corpus. Every input goes to json.Unmarshal / msgpack.Unmarshal with the original " +
 			"constraint and a related (one position changed), unrelated or dynamic target, and to json.ImpliedType, SimpleJSONValue.UnmarshalJSON, json.UnmarshalType, " +
 			"msgpack.ImpliedType. Oracle per call: no panic; on a nil error the result is not NilVal/NilType, passes both well-formedness walks and (value decoders) its " +
@@ -45,7 +46,7 @@ func (Driver) Info() core.Info {
 			"before running it; inputs declaring >= 2^21 elements run in dedicated worker processes so that a fatal out-of-memory costs only that batch. " +
 			"distinct = hash of (decoder family, input bytes, targets); non-trivial = hostile input (mutated, hand-written or grammar-generated; not pristine, not raw random)",
 		Assumptions: []string{
-			"the memory clause is decided for inputs <= 64 KiB (deep-nesting class <= 1 MiB in thorough) with the constants 2048 B/B + 16 MiB derived from valid encodings on the unchanged tree",
+			"the memory clause is decided for inputs <= 64 KiB (deep-nesting class <= 1 MiB in thorough, long real containers under a lying header <= 140 KiB) with the constants 2048 B/B + 16 MiB derived from valid encodings on the unchanged tree",
 			"runtime/metrics heap and stack classes are an accurate account of the process's memory; the worker runs decoder calls on one goroutine",
 			"target types carry no optional-attribute annotations (documented as meaningful for conversion only); optional attributes appear in the bytes under attack",
 			"mon.WellFormed / cty.VerifWellFormed define well-formedness of values; type well-formedness = no NilType, optional names declared, attribute names NFC",
@@ -452,6 +453,7 @@ func (Driver) Run(c *core.Ctx) {
 	}
 	if c.Batch < nb {
 		runCorpus(e, false, nb)
+		runLongLies(e, nb, nr, -1)
 		for g := int64(c.Batch); g < total; g += int64(nb) {
 			if !c.Want(g) {
 				continue
@@ -473,6 +475,7 @@ func (Driver) Run(c *core.Ctx) {
 	if k == 0 {
 		runCorpus(e, true, nb)
 	}
+	runLongLies(e, nb, nr, k)
 	for g := int64(k); g < total; g += int64(nr) {
 		if !c.Want(g) {
 			continue
